@@ -3,8 +3,19 @@ package middleware
 import (
 	"log/slog"
 	"net/http"
+	"net/url"
 	"reservoir/webserver/dashboard/csp"
+	"strings"
 )
+
+// Reports whether the Origin header value names the host the request was sent to.
+func isSameHost(origin string, host string) bool {
+	u, err := url.Parse(origin)
+	if err != nil || u.Host == "" {
+		return false
+	}
+	return strings.EqualFold(u.Host, host)
+}
 
 func Harden(next http.Handler) http.Handler {
 	return http.HandlerFunc(func(w http.ResponseWriter, r *http.Request) {
@@ -21,8 +32,17 @@ func Harden(next http.Handler) http.Handler {
 		site := r.Header.Get("Sec-Fetch-Site")
 		origin := r.Header.Get("Origin")
 
-		isSame := origin == "" || (site == "" || site == "same-origin" || site == "same-site")
-		allowed := isSame
+		var allowed bool
+		switch site {
+		case "same-origin", "same-site", "none":
+			allowed = true
+		case "":
+			// No Fetch Metadata (older clients, non-browser tools): fall back to the Origin header.
+			allowed = origin == "" || isSameHost(origin, r.Host)
+		default:
+			// "cross-site" (or a value we do not know) is refused, with or without an Origin header.
+			allowed = false
+		}
 
 		if !allowed {
 			slog.Warn("Cross-site request blocked", "method", r.Method, "path", r.URL.Path, "remote", r.RemoteAddr, "origin", origin, "site", site)
